@@ -156,3 +156,71 @@ def compare_parts(chk, keyprefix, rule, loc, sp, result, want, nontrivial_fields
 
 def body_loc(F, body):
     return "%s [%s]" % (F.loc(body["l"]), body["path"])
+
+
+def check_lifting(chk, key0, rule, F, body, ty, opnames, base_of, extra_args=(), presences=None, env=None, result_of=None,
+                  hooks=None):
+    """generic whole-body obligation: along every decision-tree path, every part of the (dual) result equals the
+    formal derivatives of the real expression base_of(ctx) over the operands' real parts"""
+    pats = presences if presences is not None else [tuple(None for _ in opnames)]
+    for pp in pats:
+        absent = set()
+        for nme, p in zip(opnames, pp):
+            absent |= absent_set(nme, p)
+        sp = Spec(ty, absent)
+
+        def build():
+            return [sp.operand(nme, p) for nme, p in zip(opnames, pp)] + [x() if callable(x) else x for x in extra_args]
+        key1 = key0 + ("" if all(p is None for p in pp) else "|presence=" + "".join(pres_tag(p) for p in pp))
+        try:
+            paths = run_paths(F, body, build, oracle=sample_oracle(env) if env else None, hooks=hooks)
+        except Unsupported as ex:
+            chk.undecide(key1, "unsupported construct: %s" % ex, body_loc(F, body))
+            continue
+        for ctx, val, it, args in paths:
+            key = key1 if len(paths) == 1 else key1 + "|path=" + path_descr(ctx)
+            base = base_of(ctx)
+            if base is None:
+                continue
+            if isinstance(val, PanicEx):
+                chk.ob(key, False, rule, body_loc(F, body), found="panic: %s" % val.what)
+                continue
+            v = result_of(val) if result_of else val
+            try:
+                compare_parts(chk, key, rule, body_loc(F, body), sp, v, sp.spec_of_real(base))
+            except Unsupported as ex:
+                chk.undecide(key, "unsupported: %s" % ex, body_loc(F, body))
+
+
+def two_presences(ty, n=1):
+    """all-present and all-absent for each operand (vector types), else a single None tuple"""
+    ps = presence_patterns(ty)
+    if ps == [None]:
+        return [tuple(None for _ in range(n))]
+    import itertools
+    return list(itertools.product([ps[-1], ps[0]], repeat=n))
+
+
+# ---- nalgebra constructors (external summaries keyed by the resolved path)
+from ..interp import DimV, Mat as _Mat
+
+
+def _zeros(it, args, e):
+    a = [unref(x) for x in args]
+    if len(a) == 2 and all(isinstance(x, DimV) for x in a):
+        return _Mat(it.dom.const(0), (a[0].name, a[1].name))
+    raise Unsupported("zeros_generic arguments")
+
+
+def _uninit(it, args, e):
+    a = [unref(x) for x in args]
+    if len(a) == 2 and all(isinstance(x, DimV) for x in a):
+        return _Mat(None, (a[0].name, a[1].name))
+    raise Unsupported("uninit arguments")
+
+
+_BUF = "<nalgebra::DefaultAllocator as nalgebra::allocator::Allocator<R, C>>::Buffer"
+NALGEBRA = {
+    "nalgebra::base::construction::<impl nalgebra::Matrix<T, R, C, %s<T>>>::zeros_generic" % _BUF: _zeros,
+    "nalgebra::base::construction::<impl nalgebra::Matrix<std::mem::MaybeUninit<T>, R, C, %sUninit<T>>>::uninit" % _BUF: _uninit,
+}
